@@ -370,25 +370,28 @@ Section Env.
     : list (Z * node) * list (Z * dset) :=
     let '(ev, bev) := st in
     if negb (fexists feat) then st
-    else match assoc feat (f_events f) with
-         | Some n =>
-             if defective feat then st
-             else
-               let n' := copy_node n in
-               (* (repair) no statistics for empty features: dst.size *)
-               let n'' := match n' with
-                          | NDs d => if fscalar feat
-                                        && negb (zprod (d_shape d) =? 0)
-                                     then NDs (complete_stats d) else n'
-                          | g => g
-                          end in
-               (ev ++ [(feat, n'')], bev)
-         | None =>
-             match inc_basins, assoc feat (f_bevents f) with
-             | true, Some d => (ev, bev ++ [(feat, h5ds_copy true d)])
-             | _, _ => st
-             end
-         end.
+    else
+      (* (repair) internal basin data are copied whether or not a feature of
+         the same name is stored in "events" *)
+      let bev' := match inc_basins, assoc feat (f_bevents f) with
+                  | true, Some d => bev ++ [(feat, h5ds_copy true d)]
+                  | _, _ => bev
+                  end in
+      match assoc feat (f_events f) with
+      | Some n =>
+          if defective feat then (ev, bev')
+          else
+            let n' := copy_node n in
+            (* (repair) no statistics for empty features: dst.size *)
+            let n'' := match n' with
+                       | NDs d => if fscalar feat
+                                     && negb (zprod (d_shape d) =? 0)
+                                  then NDs (complete_stats d) else n'
+                       | g => g
+                       end in
+            (ev ++ [(feat, n'')], bev')
+      | None => (ev, bev')
+      end.
 
   Definition rtdc_copy (sel : fsel) (inc_basins inc_logs inc_tables : bool)
              (f : h5file) : h5file :=
@@ -499,6 +502,86 @@ Definition condense_crashes (dsval : Z -> list elem) (feats : list Z)
                     end) feats.
 
 (* ---------------------------------------------------------------------- *)
+(* fmt_hdf5/feat_defect.py: DEFECTIVE_FEATURES[feat](h5)                    *)
+(* ---------------------------------------------------------------------- *)
+(* The facts the five predicates read from the file; the software version
+   string "a | b | c" is abstracted to what they look at.  Not modelled: the
+   branch for a "shapein-acquisition" log (version parsed from the first
+   entry without the "ShapeIn" prefix). *)
+Definition ver := (Z * Z * Z)%type.
+Definition ver_ltb (a b : ver) : bool :=
+  let '(a1, a2, a3) := a in
+  let '(b1, b2, b3) := b in
+  (a1 <? b1) || ((a1 =? b1) && ((a2 <? b2) || ((a2 =? b2) && (a3 <? b3)))).
+
+Record dfacts := mkFacts {
+  df_exact_aspect : bool;      (* the string is "ShapeIn 2.0.6" or "ShapeIn 2.0.7" *)
+  df_has_shapein : bool;       (* "ShapeIn" occurs in the string *)
+  df_last_dclab : option ver;  (* last entry starts with "dclab": its version *)
+  df_first_shapein : option ver; (* first entry starts with "ShapeIn": its version *)
+  df_log_141 : bool;           (* a log "dclab_issue_141" exists *)
+  df_has_frame : bool;         (* "frame" in events *)
+  df_rate : bool;              (* imaging:frame rate is set and not 0 *)
+  df_time_f32 : bool;          (* events/time is float32 *)
+  df_roi_wide : bool }.        (* imaging:roi size x > 500 *)
+
+Definition dclab_older (x : dfacts) (v : ver) : bool :=
+  match df_last_dclab x with Some w => ver_ltb w v | None => false end.
+
+(* feature codes *)
+Definition D_ASPECT := 1.
+Definition D_CVX := 2.
+Definition D_PRNC := 3.
+Definition D_RAW := 4.
+Definition D_TILT := 5.
+Definition D_TIME := 6.
+Definition D_VOLUME := 7.
+
+Definition defect_inert (x : dfacts) : bool :=
+  df_roi_wide x && dclab_older x (0, 48, 3).
+
+Definition defect_inert_raw_cvx (x : dfacts) : bool :=
+  defect_inert x &&
+  match df_first_shapein x with
+  | Some si => ver_ltb si (2, 0, 5)     (* Shape-In >= 2.0.5 is trusted *)
+  | None => true                        (* other recording software *)
+  end.
+
+Definition defect_time (x : dfacts) : bool :=
+  df_has_frame x && df_rate x &&
+  (df_time_f32 x || (df_has_shapein x && dclab_older x (0, 47, 6))).
+
+Definition defect_volume (x : dfacts) : bool :=
+  negb (df_log_141 x) && dclab_older x (0, 37, 0).
+
+Definition defective_code (x : dfacts) (c : Z) : bool :=
+  if c =? D_ASPECT then df_exact_aspect x
+  else if (c =? D_CVX) || (c =? D_RAW) then defect_inert_raw_cvx x
+  else if (c =? D_PRNC) || (c =? D_TILT) then defect_inert x
+  else if c =? D_TIME then defect_time x
+  else if c =? D_VOLUME then defect_volume x
+  else false.
+
+(* ---------------------------------------------------------------------- *)
+(* tdms2rtdc: which events are exported                                     *)
+(* ---------------------------------------------------------------------- *)
+(* cli/common.py skip_empty_image_events sets filter.manual[0] = False when
+   the first image (or contour) is empty and filter.manual[n-1] = False when
+   the last image is empty; ds.export.hdf5(filtered=True) then writes the
+   remaining events of every innate feature, in order. *)
+Definition tdms_manual (n : Z) (skip_i skip_f first_empty last_empty : bool)
+           (i : Z) : bool :=
+  negb ((i =? 0) && skip_i && first_empty)
+  && negb ((i =? n - 1) && skip_f && last_empty).
+
+Definition tdms_kept (n : Z) (skip_i skip_f first_empty last_empty : bool)
+  : list Z :=
+  filter (tdms_manual n skip_i skip_f first_empty last_empty) (zrange 0 n).
+
+Definition tdms_export (kept : list Z) (vals : list elem) : list elem :=
+  map (fun i => nth (Z.to_nat i) vals []) kept.
+
+(* ---------------------------------------------------------------------- *)
 (* specification: the content of a file, layout forgotten                   *)
 (* ---------------------------------------------------------------------- *)
 (* what a reader sees of one dataset: shape, elements, attributes *)
@@ -550,7 +633,8 @@ Definition enc_file (f : h5file) : list (list Z) :=
   ++ map (fun kb => enc_bdef (fst kb) (snd kb)) (f_basins f).
 
 (* feature classes of a case: (id, bits) with bits = 1 exists + 2 scalar
-   + 4 basinmap + 8 defective in the source + 16 in ds.features_scalar *)
+   + 4 basinmap + 16 in ds.features_scalar (8: unused, the defect markers are
+   computed by [defective_code] from the facts of the case) *)
 Definition cls_bit (tbl : list (Z * Z)) (bit : Z) (x : Z) : bool :=
   match assoc x tbl with
   | Some b => Z.odd (b / bit)
@@ -564,6 +648,8 @@ Definition case_rekey (old : Z) (used : list Z) : Z := - (1000 + old).
          3 rtdc_copy(sel, inc_basins, inc_logs, inc_tables)
    sel: 0 all, 1 scalar, 2 none, 3 list *)
 Record ccase := mkCase {
+  c_facts : dfacts;
+  c_defmap : list (Z * Z);     (* feature number -> defect code *)
   c_tbl : list (Z * Z);
   c_task : Z;
   c_flags : list bool;
@@ -582,7 +668,11 @@ Definition run_case (c : ccase) : list (list Z) :=
   let fe := cls_bit t 1 in
   let fs := cls_bit t 2 in
   let fb := cls_bit t 4 in
-  let fd := cls_bit t 8 in
+  (* defective in the source: a stored feature that carries a marker *)
+  let fd := fun x => match assoc x (c_defmap c), assoc x (f_events (c_file c)) with
+                     | Some code, Some _ => defective_code (c_facts c) code
+                     | _, _ => false
+                     end in
   let fsc := cls_bit t 16 in
   let dv := fun x => match assoc x (c_dsval c) with Some v => v | None => [] end in
   let fl := c_flags c in
@@ -614,5 +704,10 @@ Definition run_case (c : ccase) : list (list Z) :=
 Definition enc_boxes (bs : list box) : list (list Z) :=
   map (flat_map (fun iv => [fst iv; snd iv])) bs.
 Definition run_uint32 (vs : list Z) : list Z := map h5_to_uint32 vs.
+Definition run_tdms (c : Z * list bool) : list Z :=
+  tdms_kept (fst c) (nthb (snd c) 0) (nthb (snd c) 1) (nthb (snd c) 2)
+            (nthb (snd c) 3).
+(* h5ds_copy on one dataset: the unit tie of chunk_copy / to_fixed *)
+Definition run_h5ds (d : dset) : list Z := enc_dset (h5ds_copy true d).
 Definition run_chunks (sc : list Z * list Z) : list (list (list Z)) :=
   [enc_boxes (boxes (fst sc) (snd sc)); enc_boxes (odometer (fst sc) (snd sc))].
